@@ -10,11 +10,10 @@ Names are label lists as `dns.NextLabel` splits them (`labelsOf`); "inside a
 zone" is `LabelSuffix zone name`: the labels of `zone` are the last labels of
 `name`, compared label by label up to ASCII case — never a string suffix.
 
-PARTIAL: the clause "no record owned outside the sender's zone is relayed to
-the client inside the answer" is *not* proved; for unsigned zones the model of
-the relay path (`relayedAnswer`) provably violates it
-(`relay_clause_fails_for_unsigned_answers`), and the system-level run confirms
-the same on the real pipeline (notes/C07.md, candidate finding).
+PARTIAL only in this sense: the clauses about *later* queries (nothing the
+attacker said is cached under a victim name or used for another question) are
+judged on the real pipeline by the l3 oracle; the guards and filters,
+including the relay filter added by /repo commit fdb9218, are proved here.
 -/
 namespace SdnsVerif.Props.C07
 open SdnsVerif.Model.Bailiwick SdnsVerif.Lemmas.Bailiwick
@@ -468,40 +467,66 @@ example : filterCacheable "q.evil.test.".toList
      ⟨"victim.test.".toList, 46, 39⟩, ⟨"victim.test.".toList, 46, 1⟩]
     = [⟨"Q.evil.test.".toList, 5, 0⟩, ⟨"victim.test.".toList, 39, 0⟩, ⟨"victim.test.".toList, 46, 39⟩] := by decide
 
-/-! ## the relay clause (NOT proved — candidate finding)
+/-! ## the relay clause: nothing owned outside the asked zone travels in the answer
 
-Full statement the property asks for, over the model of `Resolver.answer`
-(unsigned zone: the answer section is passed on untouched) followed by
-`Cache.additionalAnswer` (returns the message as it is as soon as the answer
-section holds any record of the query type):
+Since /repo commit fdb9218 `Resolver.answer` drops every answer record the
+zone whose servers were asked cannot own (`dnsutil.FilterRRsToZone`), on every
+path — validated or not — before anything else is spliced in. (Before that
+commit the clause was false for unsigned answers; the counter-witness of that
+time is kept below as an example the present model rejects.) -/
 
-    ∀ zone qname qtype answer r, LabelSuffix zone qname →
-      r ∈ relayedAnswer qtype answer → LabelSuffix zone (labelsOf r.owner)
+/-- **`dnsutil.NameInZone` is the label-wise relation** on canonical names:
+the string test (equal, or ends in `"." ++ zone` at a dot preceded by an even
+number of backslashes) accepts exactly when the zone's labels are the trailing
+labels of the name. -/
+theorem nameInZone_is_labelwise (name zone : Str) (hz : zone ≠ [])
+    (hn : lower name = name) (hzc : lower zone = zone) :
+    nameInZone name zone = true ↔ LabelSuffix (labelsOf zone) (labelsOf name) :=
+  ⟨nameInZone_sound name zone hz, nameInZone_complete name zone hn hzc⟩
 
-It is false for the code as it is; the counter-witness below is the shape the
-system-level run observes on the real pipeline. -/
+/-- **Kept ⇔ owned inside the asked zone.** An answer record of an upstream
+reply survives `Resolver.answer`'s filter exactly when it was in the answer
+section and its (canonical) owner lies label-wise inside the (canonical) name
+of the zone whose servers were asked. -/
+theorem answer_kept_iff_in_zone (zone : Str) (hz : zone ≠ []) (answer : List AnsRR) (r : AnsRR) :
+    r ∈ filterToZone zone answer ↔
+      r ∈ answer ∧ LabelSuffix (labelsOf (lower zone)) (labelsOf (lower r.owner)) := by
+  unfold filterToZone
+  rw [List.mem_filter]
+  have hz' : lower zone ≠ [] := by
+    intro h; apply hz
+    unfold lower at h
+    exact List.map_eq_nil_iff.mp h
+  rw [nameInZone_is_labelwise (lower r.owner) (lower zone) hz' (lower_idem _) (lower_idem _)]
 
-/-- The answer section the client receives for an unsigned answer whose
-section already holds a record of the query type: `Resolver.answer` keeps
-`resp.Answer`, `clearAdditional` touches only the other two sections, and
-`Cache.additionalAnswer` returns at its first `Rrtype == q.Qtype` hit. -/
-def relayedAnswer (qtype : Nat) (answer : List AnsRR) : Option (List AnsRR) :=
-  if answer.any (fun r => r.rtype == qtype) then some answer else none
+/-- **No out-of-zone record is relayed inside the answer** (full strength, for
+every upstream answer section and every zone): every record of an upstream
+answer that can reach the client's answer section is owned label-wise inside
+the zone whose servers sent it. -/
+theorem no_out_of_zone_record_relayed (zone : Str) (hz : zone ≠ []) (answer : List AnsRR) (r : AnsRR)
+    (h : r ∈ relayedFromUpstream zone answer) :
+    r ∈ answer ∧ LabelSuffix (labelsOf (lower zone)) (labelsOf (lower r.owner)) :=
+  (answer_kept_iff_in_zone zone hz answer r).mp h
 
-/-- **Counter-witness (the clause fails).** An authority for `evil.test.`
-answering `q.evil.test. A` with a CNAME to `www.victim.test.` *and* an address
-record for `www.victim.test.` in the same message gets that record relayed
-inside the answer, although `www.victim.test.` is not inside `evil.test.`. -/
-theorem relay_clause_fails_for_unsigned_answers :
-    ∃ (zone qname : Str) (qtype : Nat) (answer relayed : List AnsRR) (r : AnsRR),
-      LabelSuffix (labelsOf zone) (labelsOf qname) ∧
-      relayedAnswer qtype answer = some relayed ∧ r ∈ relayed ∧
-      ¬ LabelSuffix (labelsOf zone) (labelsOf r.owner) := by
-  refine ⟨"evil.test.".toList, "q.evil.test.".toList, 1,
-    [⟨"q.evil.test.".toList, 5, 0⟩, ⟨"www.victim.test.".toList, 1, 0⟩], _,
-    ⟨"www.victim.test.".toList, 1, 0⟩, ?_, rfl, by simp, ?_⟩
-  · rw [← sub_iff]; decide
-  · rw [← sub_iff]; decide
+/-- What is relayed is a subsequence of what the upstream sent (nothing is invented or reordered). -/
+theorem relayed_is_sublist (zone : Str) (answer : List AnsRR) :
+    (relayedFromUpstream zone answer).Sublist answer := List.filter_sublist
+
+-- the former counter-witness (forged CNAME target in the same message) is now rejected, and so are
+-- the other three relay shapes: unrelated owner, NS for the victim zone, DNAME at the victim zone;
+-- a string-suffix look-alike and an escaped-dot look-alike do not pass as in-zone either
+example : relayedFromUpstream "evil.test.".toList
+    [⟨"q.evil.test.".toList, 5, 0⟩, ⟨"www.victim.test.".toList, 1, 0⟩] = [⟨"q.evil.test.".toList, 5, 0⟩] := by
+  decide
+example : relayedFromUpstream "Evil.test.".toList
+    [⟨"Q.EVIL.test.".toList, 1, 0⟩, ⟨"www.victim.test.".toList, 1, 0⟩, ⟨"victim.test.".toList, 2, 0⟩,
+     ⟨"victim.test.".toList, 39, 0⟩, ⟨"notevil.test.".toList, 1, 0⟩, ⟨"x\\.evil.test.".toList, 1, 0⟩,
+     ⟨"b.a.evil.test.".toList, 1, 0⟩, ⟨"evil.test.".toList, 6, 0⟩]
+    = [⟨"Q.EVIL.test.".toList, 1, 0⟩, ⟨"b.a.evil.test.".toList, 1, 0⟩, ⟨"evil.test.".toList, 6, 0⟩] := by
+  decide
+-- the root's servers may speak for every name
+example : relayedFromUpstream ".".toList [⟨"www.victim.test.".toList, 1, 0⟩] = [⟨"www.victim.test.".toList, 1, 0⟩] := by
+  decide
 
 /-! ## facts regenerated from the tree -/
 
@@ -510,13 +535,16 @@ applies `validReferral` before it reads glue, looks up NS addresses or stores
 the delegation; `lookup` applies the same rule to what
 `extractDelegationInfo` found; `answer` ends in `clearAdditional`;
 `Conn.Exchange` consults `QuestionMatches`; both cache write paths filter the
-answer before building the entry. -/
+answer before building the entry; `answer` filters `resp.Answer` to the asked
+zone in an unconditional top-level statement (guarded by `zone != ""` only)
+that precedes the splice of a DNAME target's separately resolved answer. -/
 theorem guards_are_wired :
     SdnsVerif.Gen.C07.shape_delegation_guard_first = true ∧
     SdnsVerif.Gen.C07.shape_lookup_applies_rule = true ∧
     SdnsVerif.Gen.C07.shape_answer_clears_sections = true ∧
     SdnsVerif.Gen.C07.shape_exchange_checks_question = true ∧
-    SdnsVerif.Gen.C07.shape_store_filters_before_entry = true := by decide
+    SdnsVerif.Gen.C07.shape_store_filters_before_entry = true ∧
+    SdnsVerif.Gen.C07.shape_answer_filters_before_splice = true := by decide
 
 /-- The compiled `usableAddr` rejects every loopback probe (127.0.0.1 in both
 spellings, the ends of 127/8, ::1) and every address of every local interface,
